@@ -257,6 +257,12 @@ impl GrafeoDB {
                 WalRecord::RemoveNodeLabel { id, label } => {
                     store.remove_label(*id, label);
                 }
+                WalRecord::RemoveNodeProperty { id, key } => {
+                    store.remove_node_property(*id, key);
+                }
+                WalRecord::RemoveEdgeProperty { id, key } => {
+                    store.remove_edge_property(*id, key);
+                }
                 WalRecord::TxCommit { .. }
                 | WalRecord::TxAbort { .. }
                 | WalRecord::Checkpoint { .. } => {
@@ -979,16 +985,40 @@ impl GrafeoDB {
     ///
     /// Returns true if the property existed and was removed, false otherwise.
     pub fn remove_node_property(&self, id: grafeo_common::types::NodeId, key: &str) -> bool {
-        // Note: RemoveProperty WAL records not yet implemented, but operation works in memory
-        self.store.remove_node_property(id, key).is_some()
+        let removed = self.store.remove_node_property(id, key).is_some();
+
+        // Log to WAL if enabled: without a record the property is back after reopen
+        #[cfg(feature = "wal")]
+        if removed {
+            if let Err(e) = self.log_wal(&WalRecord::RemoveNodeProperty {
+                id,
+                key: key.to_string(),
+            }) {
+                tracing::warn!("Failed to log RemoveNodeProperty to WAL: {}", e);
+            }
+        }
+
+        removed
     }
 
     /// Removes a property from an edge.
     ///
     /// Returns true if the property existed and was removed, false otherwise.
     pub fn remove_edge_property(&self, id: grafeo_common::types::EdgeId, key: &str) -> bool {
-        // Note: RemoveProperty WAL records not yet implemented, but operation works in memory
-        self.store.remove_edge_property(id, key).is_some()
+        let removed = self.store.remove_edge_property(id, key).is_some();
+
+        // Log to WAL if enabled
+        #[cfg(feature = "wal")]
+        if removed {
+            if let Err(e) = self.log_wal(&WalRecord::RemoveEdgeProperty {
+                id,
+                key: key.to_string(),
+            }) {
+                tracing::warn!("Failed to log RemoveEdgeProperty to WAL: {}", e);
+            }
+        }
+
+        removed
     }
 
     // =========================================================================
